@@ -19,6 +19,9 @@ CHECKS = {
     "C02": ("other", MIX + "Balanced/levelled/flagged token postconditions of the seven leaf block rules (push inlined) discharged; full stream contract monitored on parse/parseInline.", TB, DED + "; bounded stream monitor", "4 C02"),
     "C03": ("other", MIX + "map == [startLine, line'], non-empty, non-blank start/end postconditions of the leaf rules and skipEmptyLines discharged; whole map contract monitored on parse output.", TB, DED + "; bounded map monitor", "4 C03"),
     "C04": ("other", MIX + "html_block succeeds only under a truthy options.html (POST); output language monitor (Safe, nested) over line and inline universes with html off.", TB, DED + "; bounded output-language monitor", "4 C04"),
+    "C06": ("other", MIX + "The quote-form mechanism is proved: rules_block.blockquote verified on all paths (212 obligations): per quoted line the tables move past the marker and its optional blank with the physical-column "
+            "invariant re-established, the nested block loop runs on well-formed tables with blkIndent 0, the open token's map is [startLine, line'], and all tables and context fields are restored. The law itself "
+            "(a relation between two runs of the whole parser) is monitored in quote and list form, nested to depth 3.", TB + " list_block's mechanism is covered by the bounded law only.", DED + "; bounded relational monitor (quote and list form)", "4 C06"),
     "C07": ("other", MIX + "Leaf rules: failing/silent calls change nothing, successful calls restore level and parentType (POSTs discharged); the concatenation law monitored over closed-A x non-indented-B pairs.", TB, DED + "; bounded relational monitor", "4 C07"),
     "C08": ("other", MIX + "markup == scanned marker run with its count, info == src slice, content == getLines of exactly the token's lines (hr, heading, lheading, fence, code, html_block) discharged for all inputs; "
             "getLines/list markup/code span monitored.", TB + " getLines itself is under an assumed contract.", DED + "; bounded content monitor", "4 C08"),
